@@ -16,7 +16,7 @@ RULE = ('reference datetimes: every weekday, month ends, 02-29, year boundaries,
         'each culture resolves by the English statement at all (the others - e.g. es "hace N días", fr "dans N jours", it "N giorni fa" - are outside the statement, '
         'which is worded for English, and are not driven). non-trivial = one resolved entity; distinct = distinct (culture, query, reference).')
 EXHAUSTIVE = False
-JOB_TIMEOUT = 1500
+JOB_TIMEOUT = 3600
 
 
 WD = {
@@ -191,7 +191,7 @@ def gen(ctx):
             for w, off in c['rel'].items():
                 yield cu, w, R, {0: 'today', 1: 'tomorrow', -1: 'yesterday'}[off], None
     for cu, fam in CULT_REL.items():
-        for R in refs[:: (3 if ctx.tier == 'quick' else 1)]:
+        for R in refs[:: (3 if ctx.tier == 'quick' else 4)]:
             for kind, tpls in fam.items():
                 for t in tpls:
                     if '{n}' in t:
